@@ -114,6 +114,41 @@ for it in range(N):
             {"points": pts.round(4).tolist()}, lambda pts=pts, Rm=Rm, t=t: geometry_contract(pts, Rm, t))
 
 
+def periodic_geometry_contract(kind, box):
+    """a 4-atom chain is translated and wrapped into the box: the periodic distance / angle / dihedral
+    (and their index variants) must equal the textbook values of the unwrapped chain"""
+    start = rng.uniform(0.2, 0.8, size=3) @ box
+    step = rng.normal(size=(3, 3))
+    step = step / np.linalg.norm(step, axis=1)[:, None] * 1.3
+    chain = np.vstack([start, start + np.cumsum(step, axis=0)])
+    exp = textbook(chain.astype(np.float32).astype(float))
+    b32 = box.astype(np.float32)
+    for trial in range(4):
+        shift = rng.uniform(-1.5, 1.5, size=3) @ box
+        w = struc.move_inside_box((chain + shift).astype(np.float32), b32)
+        got = (float(struc.distance(w[0], w[1], box=b32)), float(struc.angle(w[0], w[1], w[2], box=b32)),
+               float(struc.dihedral(w[0], w[1], w[2], w[3], box=b32)))
+        for name, g, e in zip(("distance", "angle", "dihedral"), got, exp):
+            if abs(g - e) > 3e-3 and abs(abs(g - e) - 2 * np.pi) > 3e-3:
+                return f"periodic {name} of the wrapped chain = {g:.4f}, unwrapped chain has {e:.4f}"
+        arr = struc.AtomArray(4)
+        arr.coord = w
+        arr.box = b32
+        idx = (float(struc.index_distance(arr, np.array([[0, 1]]), periodic=True)[0]),
+               float(struc.index_angle(arr, np.array([[0, 1, 2]]), periodic=True)[0]),
+               float(struc.index_dihedral(arr, np.array([[0, 1, 2, 3]]), periodic=True)[0]))
+        for name, g, e in zip(("index_distance", "index_angle", "index_dihedral"), idx, exp):
+            if abs(g - e) > 3e-3 and abs(abs(g - e) - 2 * np.pi) > 3e-3:
+                return f"{name}(periodic=True) of the wrapped chain = {g:.4f}, unwrapped chain has {e:.4f}"
+    return None
+
+
+for it in range(N // 2):
+    for kind, box in boxes(rng):
+        R.check("periodic distance/angle/dihedral are invariant under translation + wrapping", f"periodic geometry {kind}",
+                {"box": box.round(4).tolist()}, lambda kind=kind, box=box: periodic_geometry_contract(kind, box))
+
+
 def box_contract(kind, box, pts):
     f32, b32 = pts.astype(np.float32), box.astype(np.float32)
     fr = struc.coord_to_fraction(f32, b32)
